@@ -226,6 +226,37 @@ impl Monitor for C10 {
                     break;
                 }
             }
+            // very long windows (up to 2^62): the number of events of the dense sequence in a window
+            // anchored at its start is ceil((delta + J) / T), computed exactly in 128-bit arithmetic
+            if let [c] = &comps[..] {
+                let (t, j) = match &c.base {
+                    Base::Periodic(t) | Base::MinSep(t) => (*t as u128, c.jitter as u128),
+                    _ => (0, 0),
+                };
+                if t > 0 {
+                    for _ in 0..12 {
+                        let dl = rng.range(1u64 << 33, 1u64 << 62);
+                        let events = (dl as u128 + j + t - 1) / t;
+                        match guard(|| built.number_arrivals(Duration::from(dl)) as u128) {
+                            Ok(got) => {
+                                rep.count("very_long_windows_checked", 1);
+                                if got != events {
+                                    let dir = if got < events { "window-holds-more-events-than-number_arrivals" } else { "bound-not-attained-by-densest-sequence" };
+                                    rep.violation(
+                                        format!("C10 impl={} kind={} (very long window)", shape, dir),
+                                        jobj! {"model"=>arr.to_json(),"delta"=>dl,"number_arrivals"=>got as u64,"events_of_dense_sequence_in_window"=>events as u64},
+                                    );
+                                    break;
+                                }
+                            }
+                            Err(c) => {
+                                rep.violation(format!("C10 impl={} kind={}-in-number_arrivals class={} (very long window)", shape, c.kind, c.class()), jobj! {"model"=>arr.to_json(),"delta"=>dl,"caught"=>c.to_json()});
+                                break;
+                            }
+                        }
+                    }
+                }
+            }
             'sub: for a in 1..f.len().min(120) {
                 for b in a..f.len().min(120) {
                     if a + b < f.len() {
